@@ -393,7 +393,7 @@ class CallMixin:
         params = [p for p, _ in self.callee_params(con)]
         for p, a in zip(params, args):
             decl = con.types.get(p)
-            if decl is None:
+            if decl is None or a.ty.kind == "none":
                 continue
             d = parse_type(decl)
             ak = a.ty.args[0].kind if a.ty.kind == "opt" else a.ty.kind
